@@ -542,6 +542,8 @@ class ExprMixin:
             f = self.find_method(a.cls, self.DUNDER[type(op)])
             if f is not None:
                 return self.call_repo(st, f, [a, b], {}, node)
+        if isinstance(a, VBits) or isinstance(b, VBits):
+            return self.bits_op(st, op, a, b, node)
         # sequences
         if isinstance(op, ast.Add):
             if isinstance(a, VBytes) and isinstance(b, VBytes):
@@ -626,7 +628,10 @@ class ExprMixin:
                     p = z3.IntVal(2 ** y.as_long())
                 else:
                     p = self.pow2(ok, y)
-                res.append((ok, VInt(z3.simplify(x * p if isinstance(op, ast.LShift) else x / p))))
+                r = VInt(z3.simplify(x * p if isinstance(op, ast.LShift) else x / p))
+                if isinstance(op, ast.LShift) and is_const_int(x) and x.as_long() == 1:
+                    r.single_bit = y          # 1 << k: remembered for use as a bit set
+                res.append((ok, r))
             if ex is not None:
                 res.append((ex, None))
             return res
@@ -647,6 +652,33 @@ class ExprMixin:
                 return [(st, VInt(x.as_long() ** y.as_long()))]
             self.unsupported(node, 'power operator')
         self.unsupported(node, 'binary operator %s' % type(op).__name__)
+
+    def bits_op(self, st, op, a, b, node):
+        """ints used as bit sets: >> k, << k, | (1 << k), & 1"""
+        if isinstance(op, (ast.RShift, ast.LShift)) and isinstance(a, VBits) and isinstance(b, (VInt, VBool)):
+            k = self.as_int(b, node)
+            ok, ex_ = self.guard(st, k >= 0, 'builtins:ValueError')
+            res = []
+            if ok is not None:
+                if isinstance(op, ast.RShift):
+                    res.append((ok, VBits(at=lambda i, a=a, k=k: z3.And(i >= 0, a.at(i + k)))))
+                else:
+                    res.append((ok, VBits(at=lambda i, a=a, k=k: z3.And(i >= k, a.at(i - k)))))
+            if ex_ is not None:
+                res.append((ex_, None))
+            return res
+        if isinstance(op, ast.BitAnd):
+            x, y = (a, b) if isinstance(a, VBits) else (b, a)
+            if isinstance(y, VInt) and z3.is_int_value(z3.simplify(y.t)) and z3.simplify(y.t).as_long() == 1:
+                return [(st, VInt(z3.If(x.at(z3.IntVal(0)), 1, 0)))]
+        if isinstance(op, ast.BitOr):
+            x, y = (a, b) if isinstance(a, VBits) else (b, a)
+            try:
+                y = coerce(y, BITS)
+            except Unsupported:
+                self.unsupported(node, 'bit-or of a bit set with a symbolic int')
+            return [(st, VBits(at=lambda i, x=x, y=y: z3.Or(x.at(i), y.at(i))))]
+        self.unsupported(node, 'operation on an int used as bit set')
 
     def pow2(self, st, e):
         """2**e for symbolic e >= 0: uninterpreted function with the defining facts for the
